@@ -425,3 +425,9 @@ Proof.
     intros i Hi. apply in_remove1; [|apply Hin; right; assumption].
     intro E. subst i. contradiction.
 Qed.
+
+(* ------------------------------------------------------------------ handle_pushed *)
+Lemma handle_pushed_all : forall ws, handle_pushed ws = (map fst ws, Returned).
+Proof.
+  induction ws as [|w ws IH]; [reflexivity|]. simpl. rewrite IH. destruct (call_watcher w); reflexivity.
+Qed.
